@@ -15,6 +15,7 @@ conditional / unconditional, perturbed parameters, plus conditional-base / uncon
 """
 
 import math
+import time
 
 import numpy as np
 
@@ -178,7 +179,7 @@ def _viol(ctx, unit, what, spec, errs, msg, expected, observed, broken, **case):
                   broken=broken, reproducer="cd /verif && ./check C03 --replay <this file>")
 
 
-def unit_tie(ctx):
+def unit_tie(ctx, n_dists=None):
     L = lv.lib()
     jnp, jr = L["jnp"], L["jr"]
     rng = ctx.rng
@@ -192,7 +193,7 @@ def unit_tie(ctx):
                                "merge_transforms, and merged vs original object; non-trivial = nesting >= 2")
     uo = ctx.unit("identities-oracle", "the three identities of the statement recomputed through public methods on the generated "
                                        "distributions (implementation only)")
-    n_dists = 12 if ctx.quick else 150
+    n_dists = n_dists if n_dists is not None else (12 if ctx.quick else 150)
     shapes = [(), (1,), (2,), (3,)]
     work, reqs = [], []
     for i in range(n_dists):
@@ -220,7 +221,9 @@ def unit_tie(ctx):
         reqs.append(f"mstruct {t}")
         work.append((spec, d, t, xs, keys, zs, first))
     outs = ctx.model(reqs, "dist")
-    for spec, d, t, xs, keys, zs, first in work:
+    for wi, (spec, d, t, xs, keys, zs, first) in enumerate(work):
+        if wi % 8 == 7:
+            L["jax"].clear_caches()   # one compiled executable per distinct structure: keep the process small
         nest = len(spec["layers"]) + (1 if spec["base"] in ("normal", "gumbel") else 0)
         shp = ds.shape_of_term(t.split(" "))
         dm = d.merge_transforms()
@@ -429,7 +432,7 @@ def _flow_case(ctx, uf, name, dim, cond, inv, flow, tol, kint, rng, nx, nk, u4=N
             reqs.append(f"samplelp {hexlist(z)} {t}")
 
 
-def unit_flows(ctx):
+def unit_flows(ctx, configs=None, bnaf_cfg=None, extras=True):
     L = lv.lib()
     rng = ctx.rng
     uf = ctx.unit("flows-oracle", "flow factories (quick: stratified subset rotating with the seed; thorough: every factory x dims 1-3 x invert "
@@ -441,18 +444,19 @@ def unit_flows(ctx):
                                  "vs the model term Transformed(N, Invert(Chain layers)) resp. Transformed(N, Chain layers) built from the flow's "
                                  "layers and the orientation the documentation of `invert` prescribes; non-trivial = finite value")
     names = [n for n in ds.FACTORIES if n != "bnaf"]
-    if ctx.quick:
+    if configs is None:
         configs = ds.quick_configs(ctx.seed, names) + [("triangular-spline", 1 + (ctx.seed + 2) % 3, None, False), ("triangular-spline", 1 + ctx.seed % 3, 2, True)]
         bnaf_cfg = ds.quick_configs(ctx.seed, ds.FACTORIES)[-2:]
-    else:
-        configs = ds.all_configs(names)
-        bnaf_cfg = ds.all_configs(("bnaf",))
-    payload = dict(seed=int(rng.integers(0, 2**31)), quick=ctx.quick, configs=bnaf_cfg)
+    guard = None
+    payload = dict(seed=int(rng.integers(0, 2**31)), quick=ctx.quick, configs=bnaf_cfg or [])
     # BNAF needs a numerically inverted direction on one of the two paths (never returns for a bounded layer): separate
     # process under a wall-clock guard, started first so that it runs beside the other factories
-    guard = ds.start_guarded("c03", "bnaf_worker", payload)
+    if bnaf_cfg:
+        guard = ds.start_guarded("c03", "bnaf_worker", payload)
     jobs, reqs = [], []
-    for name, dim, cond, inv, flow, tol, kint in ds.flows(ctx, configs):
+    for fi, (name, dim, cond, inv, flow, tol, kint) in enumerate(ds.flows(ctx, configs)):
+        if fi % 6 == 5:
+            L["jax"].clear_caches()
         _flow_case(ctx, uf, name, dim, cond, inv, flow, tol, kint, rng, 3 if ctx.quick else 6, 2 if ctx.quick else 4, u4, jobs, reqs)
     outs = ctx.model(reqs, "dist")
     for (what, meta, a, impl, sens), line in zip(jobs, outs):
@@ -478,9 +482,12 @@ def unit_flows(ctx):
                           what=f"{meta['flow']} dim {meta['dim']} invert={meta['invert']}: {what} model {exp} != implementation {obs}",
                           case=dict(meta, unit=what, arg=[fhex(v) for v in np.ravel(a if what == 'logp' else a[1])]), found_input=False, unit=u4.name,
                           expected=exp, observed=obs, broken="theorem C03_factory_orientation_invert/_plain on the serialised term")
-    unit_orientation_oracle(ctx)
-    unit_cond_routing(ctx)
-    res = ds.finish_guarded(guard, timeout=(170 if ctx.quick else 1500))
+    if extras:
+        unit_orientation_oracle(ctx)
+        unit_cond_routing(ctx)
+    if guard is None:
+        return
+    res = ds.finish_guarded(guard, timeout=(170 if ctx.quick else 900))
     if res.get("timeout"):
         ctx.violation(sig="flows-oracle:bnaf:timeout", what="the BNAF identities did not return within the wall-clock guard (numerical inversion of a "
                       "bounded layer never returns)", case=payload, found_input=False, unit=uf.name, broken="flows-oracle (BNAF)")
@@ -519,7 +526,7 @@ def bnaf_worker(payload):
     return dict(counts=uf.counts, violations=viol, notes=ctx.notes)
 
 
-def unit_orientation_oracle(ctx):
+def unit_orientation_oracle(ctx, todo=None):
     """invert=True and invert=False built from the SAME key have the same layers; with invert=True log_prob must go through the
     layers' forward maps, log-dets added: log_prob_T(x) = base.log_prob(y) + ld with (y, ld) = layers.transform_and_log_det(x),
     where `layers` is the bijection of the invert=False flow."""
@@ -531,10 +538,8 @@ def unit_orientation_oracle(ctx):
     uo = ctx.unit("orientation-oracle", "factory(key, invert=True).log_prob(x) == base.log_prob(y) + ld, (y, ld) = factory(key, invert=False)"
                                         ".bijection.transform_and_log_det(x); quick: two factories rotating with the seed; thorough: all x dims 1-3")
     names = [n for n in ds.FACTORIES if n != "bnaf"]
-    if ctx.quick:
+    if todo is None:
         todo = [(names[(ctx.seed + i) % len(names)], 1 + (ctx.seed + i) % 3) for i in (0, 2)]
-    else:
-        todo = [(n, d) for n in ds.FACTORIES for d in (1, 2, 3)]
     for name, dim in todo:
         if name == "coupling" and dim == 1:
             dim = 2
@@ -557,7 +562,7 @@ def unit_orientation_oracle(ctx):
                           expected=rhs, observed=lhs, broken="theorem C03_factory_orientation_invert (documented orientation of invert=True)")
 
 
-def unit_cond_routing(ctx):
+def unit_cond_routing(ctx, reps=1):
     """Conditional base under an unconditional bijection, unconditional base under a conditional bijection, and both."""
     L = lv.lib()
     jnp, jr, B, eqx = L["jnp"], L["jr"], L["B"], L["eqx"]
@@ -569,7 +574,7 @@ def unit_cond_routing(ctx):
     uc = ctx.unit("cond-routing-oracle", "Transformed(conditional base, unconditional bijection) / (unconditional base, conditional bijection) / "
                                          "(both): cond_shape merged, identities hold with the condition given to whichever part is conditional, "
                                          "the base's conditional density is what enters, and the density really depends on the condition")
-    for rep in range(1 if ctx.quick else 8):
+    for rep in range(reps):
         dim = 1 + (ctx.seed + rep) % 3
         k1, k2 = jr.split(jr.PRNGKey(int(rng.integers(0, 2**31))))
         cbase = fc.perturb(F.masked_autoregressive_flow(k1, base_dist=StandardNormal((dim,)), cond_dim=2, flow_layers=1, nn_width=6), rng, 0.5)
@@ -604,9 +609,102 @@ def unit_cond_routing(ctx):
                               unit=uc.name, expected="condition routed to base and bijection", observed=errs[:5], broken="cond routing (search oracle)")
 
 
+def chunk_worker(payload):
+    """One chunk of the thorough tier in its own process (bounded number of XLA executables per process)."""
+    from harness import common
+
+    ctx = common.Ctx("C03", payload["tier"], payload["seed"])
+    ctx.groups = ["dist"]
+    ctx.quick = payload.get("quick", False)
+    what = payload["what"]
+    if what == "tie":
+        unit_tie(ctx, n_dists=payload["n"])
+    elif what == "flows":
+        unit_flows(ctx, configs=[tuple(c) for c in payload["configs"]], bnaf_cfg=[tuple(c) for c in payload.get("bnaf", [])], extras=False)
+    elif what == "orientation":
+        unit_orientation_oracle(ctx, [tuple(t) for t in payload["todo"]])
+    elif what == "cond":
+        unit_cond_routing(ctx, reps=payload["reps"])
+    units = {u.name: dict(what=u.what, cases=u.cases, hashes=sorted(u.hashes), nontrivial=sorted(u.nontrivial), hist=u.hist, disagreements=u.disagreements)
+             for u in ctx.units.values()}
+    return dict(units=units, violations=ctx.violations, samples=ctx.samples, notes=ctx.notes, known=ctx.known_hits)
+
+
+def _merge(ctx, res):
+    for name, r in res["units"].items():
+        u = ctx.unit(name, r["what"])
+        u.cases += r["cases"]
+        u.hashes |= set(r["hashes"])
+        u.nontrivial |= set(r["nontrivial"])
+        u.disagreements += r["disagreements"]
+        for k, v in r["hist"].items():
+            u.hist[k] = u.hist.get(k, 0) + v
+    for v in res["violations"]:
+        old = [w for w in ctx.violations if w["sig"] == v["sig"]]
+        if old:
+            old[0]["count"] += v["count"]
+        else:
+            ctx.violations.append(v)
+    for smp in res["samples"]:
+        ctx.sample(smp)
+    ctx.notes += res["notes"]
+    for m in res["known"]:
+        if m not in ctx.known_hits:
+            ctx.known_hits.append(m)
+
+
+def run_thorough(ctx):
+    rng = ctx.rng
+    names = [n for n in ds.FACTORIES if n != "bnaf"]
+    payloads = []
+    for i in range(10):
+        payloads.append(dict(what="tie", n=15))
+    cfgs = ds.all_configs(names)
+    bn = ds.all_configs(("bnaf",))
+    k = 8
+    chunks = [cfgs[i:i + k] for i in range(0, len(cfgs), k)]
+    for i, ch in enumerate(chunks):
+        payloads.append(dict(what="flows", configs=ch, bnaf=bn[2 * i:2 * i + 2]))
+    todo = [(n, d) for n in ds.FACTORIES for d in (1, 2, 3)]
+    for i in range(0, len(todo), 6):
+        payloads.append(dict(what="orientation", todo=todo[i:i + 6]))
+    payloads.append(dict(what="cond", reps=4))
+    payloads.append(dict(what="cond", reps=4))
+    for p in payloads:
+        p.update(tier=ctx.tier, seed=int(rng.integers(0, 2**31)), quick=False)
+    pending = [(p, 0) for p in payloads]
+    running = []
+    deadline = time.time() + 2100
+    while pending or running:
+        while pending and len(running) < 3:
+            p, tries = pending.pop(0)
+            running.append((ds.start_guarded("c03", "chunk_worker", p), p, tries, time.time()))
+        time.sleep(1.0)
+        still = []
+        for proc, p, tries, t0 in running:
+            if proc.poll() is None and time.time() - t0 < 700 and time.time() < deadline:
+                still.append((proc, p, tries, t0))
+                continue
+            res = ds.finish_guarded(proc, timeout=(5 if proc.poll() is None else 60))
+            label = {k2: v for k2, v in p.items() if k2 in ("what", "seed", "n")}
+            if "units" in res:
+                _merge(ctx, res)
+            elif tries == 0 and not res.get("timeout"):
+                ctx.notes.append(f"chunk {label} crashed once ({str(res.get('error'))[-120:]}); retried")
+                pending.append((p, 1))
+            else:
+                ctx.violation(sig=f"chunk:{p['what']}:{'timeout' if res.get('timeout') else 'crash'}", what=f"chunk {label} of the thorough tier "
+                              f"{'did not return within its wall-clock guard' if res.get('timeout') else 'crashed twice: ' + str(res.get('error'))[-300:]}",
+                              case=p, found_input=False, unit="chunks", broken="harness (chunk worker)")
+        running = still
+
+
 def run(ctx):
-    unit_tie(ctx)
-    unit_flows(ctx)
+    if ctx.quick:
+        unit_tie(ctx)
+        unit_flows(ctx)
+    else:
+        run_thorough(ctx)
     ctx.assumptions += [
         "jr.split / jr.normal / jr.gumbel are taken as given: the base draw fed to the model is read from the real innermost base on the same key path",
         "NaN -> -inf of AbstractDistribution.log_prob is applied to the model value on the harness side (modelled in C05)",
